@@ -618,6 +618,11 @@ func (r *renderer) expandRaw(s string) string {
 				out.WriteString(r.expandRaw(a))
 			}
 			i += n
+		} else if a, n, ok := arg("$RONLY"); ok {
+			if r.mode == "R" {
+				out.WriteString(r.expandRaw(a))
+			}
+			i += n
 		} else if a, n, ok := arg("$ITER"); ok {
 			out.WriteString(r.iterType(r.expandRaw(a)))
 			i += n
